@@ -3,4 +3,5 @@ package props
 
 import (
 	_ "verif/props/c02"
+	_ "verif/props/c03"
 )
